@@ -9,6 +9,8 @@
 //   - ctx.go Path: whether the override branch calls syncIndexRoute after configDependentPaths
 //   - router.go addRoute: the text of the duplicate-merge condition
 //   - router.go register, ctx.go configDependentPaths, helpers.go getGroupPath: the normalisation statements
+//   - helpers.go methodInt: its top-level shape (fast switch guarded by "no custom RequestMethods", else
+//     slices.Index over Config.RequestMethods) and the (method name, slot) table of the fast switch
 //   - ctx.go Method: the condition under which the override calls syncIndexRouteMethod; ctx.go
 //     syncIndexRouteMethod: the early-return guard, the two loop conditions and what the loops count
 package main
@@ -350,6 +352,53 @@ func main() {
 			}
 		}
 	}
+	// helpers.go methodInt: top-level statements (the `if` with its condition, what follows it), and the
+	// fast switch's (case label, returned constant) pairs resolved to (method name, slot)
+	var miShape []string
+	var miSwitch []string
+	helpersMI := parse(filepath.Join(*repo, "helpers.go"))
+	for _, st := range funcDecl(helpersMI, "App", "methodInt").Body.List {
+		switch v := st.(type) {
+		case *ast.IfStmt:
+			inner := "other"
+			if len(v.Body.List) == 1 {
+				if _, ok := v.Body.List[0].(*ast.SwitchStmt); ok {
+					inner = "switch " + text(v.Body.List[0].(*ast.SwitchStmt).Tag)
+				}
+			}
+			miShape = append(miShape, "if "+text(v.Cond)+" { "+inner+" }")
+		case *ast.SwitchStmt:
+			miShape = append(miShape, "switch "+text(v.Tag))
+		default:
+			miShape = append(miShape, text(st))
+		}
+	}
+	ast.Inspect(funcDecl(helpersMI, "App", "methodInt").Body, func(n ast.Node) bool {
+		cc, ok := n.(*ast.CaseClause)
+		if !ok {
+			return true
+		}
+		ret := "?"
+		if len(cc.Body) == 1 {
+			if rs, ok := cc.Body[0].(*ast.ReturnStmt); ok && len(rs.Results) == 1 {
+				ret = text(rs.Results[0])
+				if k, ok := ints[ret]; ok {
+					ret = strconv.Itoa(k)
+				}
+			}
+		}
+		if cc.List == nil {
+			miSwitch = append(miSwitch, "default=>"+ret)
+		}
+		for _, l := range cc.List {
+			name := text(l)
+			if v, ok := strs[name]; ok {
+				name = v
+			}
+			miSwitch = append(miSwitch, name+"=>"+ret)
+		}
+		return true
+	})
 	// normalisation statements (top level, in order)
 	var regNorm, cdpNorm, ggpNorm []string
 	for _, st := range funcDecl(routerF, "App", "register").Body.List {
@@ -383,6 +432,7 @@ func main() {
 	fmt.Fprintf(&b, "/-- router.go register: the path normalisation statements, in order -/\ndef registerNorm : List String := %s\n", leanStrs(regNorm))
 	fmt.Fprintf(&b, "/-- ctx.go configDependentPaths: all statements, in order -/\ndef configDependentPathsStmts : List String := %s\n", leanStrs(cdpNorm))
 	fmt.Fprintf(&b, "/-- helpers.go getGroupPath: all statements, in order -/\ndef getGroupPathStmts : List String := %s\n", leanStrs(ggpNorm))
+	fmt.Fprintf(&b, "/-- helpers.go methodInt: top-level statements; the fast switch's `name=>slot` table -/\ndef methodIntShape : List String := %s\ndef methodIntSwitch : List String := %s\n", leanStrs(miShape), leanStrs(miSwitch))
 	b.WriteString("\nend C01.Facts\n")
 	if err := os.WriteFile(*out, []byte(b.String()), 0o644); err != nil {
 		die("%v", err)
